@@ -58,7 +58,7 @@ def run_case(ctx, cfg, body, nstates, presimplify, difficulties=(0, 1, 2, 3), wa
     nonscratch = [r for r in ri + rf if r not in si and r not in sf]
     check = sorted(set(nonscratch) | {r for r in body.mentioned})
     req = {'op': 'vm_lower', 'lang': cfg.lang(), 'mapfile': cfg.mapfile(), 'body': body.text, 'states': states,
-           'difficulties': list(difficulties), 'check_regs': check, 'presimplify': presimplify, 'max_iter': 3000}
+           'difficulties': list(difficulties), 'check_regs': check, 'presimplify': presimplify, 'max_iter': 3000, 'want_trace': True}
     return req, ctx.call(req)
 
 def check_reg_events(cfg, body, resp, general_use=None, params=()):
